@@ -3,15 +3,26 @@ use crate::ctx::Opts;
 
 pub mod common;
 pub mod c01;
+pub mod c02;
 pub mod c04;
+pub mod c08;
+pub mod c10;
 pub mod c11;
+pub mod c19;
+pub mod c20;
 pub mod objops;
 
 pub fn dispatch(cmd: &str, o: &Opts) -> i32 {
     match cmd {
         "c01" => c01::run(o),
+        "c02" => c02::run(o),
         "c04" => c04::run(o),
+        "c08" => c08::run_c08(o),
+        "c09" => c08::run_c09(o),
+        "c10" => c10::run(o),
         "c11" => c11::run(o),
+        "c19" => c19::run(o),
+        "c20" => c20::run(o),
         "selfcheck" => match common::selfcheck(o) {
             Ok(n) => {
                 println!("selfcheck ok: {} reference vectors reproduced by oracle O1", n);
